@@ -202,14 +202,19 @@ static HV check13(const ChunkCase &k, size_t *pads = nullptr) {
     parts.push_back({std::vector<std::string>(k.lines.begin(), k.lines.begin() + t1), true}); parts.push_back({std::vector<std::string>(k.lines.begin() + t1, k.lines.begin() + t2), false}); parts.push_back({std::vector<std::string>(k.lines.begin() + t2, k.lines.end()), true}); }
   else { std::vector<std::string> A(k.lines.begin(), k.lines.begin() + half), B(k.lines.begin() + half, k.lines.end()); parts.push_back({A, k.toggle == 2}); parts.push_back({B, k.toggle == 1 || k.toggle == 3}); }
   size_t li = 0; size_t pos = k.start; size_t req_total = 0;
+  int prev_mode = -1;
   for (auto &pt : parts) {
-    asm_set_chunk_size(a, pt.second ? CHUNK : 1);
+    if (prev_mode != (int)pt.second || (k.start & 1)) asm_set_chunk_size(a, pt.second ? CHUNK : 1);   // no redundant setter call between parts of the same mode (half of the cases)
+    prev_mode = (int)pt.second;
     if (k.count_first) { // a counting call in between must leave the fitting setup alone
       int keep = asm_get_offset(a), cnt = 0; int variant = (int)((k.start + k.lines.size()) % 4); std::string one = pt.first[0] + "\n"; if (variant >= 2) one += "definitely not an instruction\n"; std::vector<char> w(one.begin(), one.end()); w.push_back(0);
       if (variant == 3) { std::string fp = hist_tmp("between.asm"); hist_write(fp, one); std::vector<char> pth(fp.begin(), fp.end()); pth.push_back(0); asm_assemble_file_counting_chunks(a, pth.data(), 8, &cnt); }
       else if (variant == 1) assemble_string_counting_chunks(a, w.data(), 8, &cnt); else asm_assemble_string_counting_chunks(a, w.data(), 8, &cnt);
       asm_set_offset(a, keep); }
     std::string text = join(pt.first);
+    if ((k.start + k.lines.size()) % 3 == 1) { // the same lines with a bad one at the end: the call fails (after assembling the valid ones); the real call follows without any setter in between
+      std::string t2 = text + "definitely not an instruction\n"; int keep = asm_get_offset(a); int fr = (k.start & 2) ? assemble_str(a, t2.c_str()) : asm_assemble_str(a, t2.c_str());
+      if (fr == 0) { asm_destroy_instance(a); return bad("harness", "a program with a bad last line assembled"); } if (asm_get_offset(a) != keep) { asm_destroy_instance(a); return bad("offset", "the failing call moved the offset from " + std::to_string(keep) + " to " + std::to_string(asm_get_offset(a))); } }
     int rc = asm_assemble_str(a, text.c_str()); int off = asm_get_offset(a);
     const uint8_t *bufp = (const uint8_t *)asm_get_code(a);
     if (rc != 0) { asm_destroy_instance(a); return bad("rejected", "fitting call failed"); }
@@ -367,6 +372,20 @@ void prop_c14(hz::Ctx &ctx) {
       if (!v.ok) { hz::Failure f = failck(k, v); f.caseid = id; f.text = std::to_string(k.lines.size() - 4) + " nops then long instructions across the growth threshold, library-managed buffer [chunk " + std::to_string(c) + "]"; ctx.fail(f); }
     }
   }
+  // chunk sizes that are no powers of two at positions where position x chunk size passes 2^32 (and other large pairs): boundary just in front of, at and behind the instruction
+  {
+    hz::Rng r(ctx.seed ^ 0x14c); int np = ctx.thorough() ? 6000 : 900;
+    for (int t = 0; t < np; t++) {
+      static const int CB[] = {65535, 65537, 65521, 99991, 100000, 131071, 262145, 1000003, 46341, 33333, 4097, 12289}; int c = t % 3 == 0 ? CB[r.below(12)] : 1000 + (int)r.below(1 << 20); int m = 1 + (int)r.below(t % 2 ? 64 : 8); long long pos = (long long)m * c - (long long)r.below(16); if (pos < 0 || pos > (48LL << 20)) continue;
+      if (!ctx.take()) continue;
+      ChunkCase k; k.counting = true; k.internal = true; k.c = c; k.start = (int)pos; k.combo = (int)r.below(12); k.calls = 1; for (int i = 0; i < 3; i++) k.lines.push_back(reps[r.below(reps.size())]);
+      std::string id = serck(k); if (!ctx.begin(id, join(k.lines, "\\n"))) continue;
+      int want = 0; HV v = check14(k, &want);
+      ctx.cls("part:large-chunk-large-position"); if (want >= 1) ctx.nontrivial(id);
+      if (ctx.want_sample()) ctx.put_sample("counting, chunk " + std::to_string(c) + ", start " + std::to_string(k.start) + " (library-managed buffer) -> " + (v.ok ? "count " + std::to_string(want) : v.symptom));
+      if (!v.ok) ctx.fail(failck(k, v));
+    }
+  }
   // a program of about a megabyte counted on a thread whose stack is a quarter of that (the library has no business copying its input to the stack)
   for (int t = 0; t < (ctx.thorough() ? 12 : 3); t++) {
     if (!ctx.take()) continue;
@@ -427,13 +446,16 @@ static void model_apply(Model &m, int setter, int v) {
 static const char *SRC12[] = {"nop\n", "definitely not an instruction\n", "mov rax, 0x7fffffff\nadd rax, zzz\n", "mov rax, 0x000000007fffffff\nlea r15, [rax+rsp]\nlea r15, [2*rax]\n"};
 static void real_apply(assemblyline_t a, int setter, int v) {
   enum asm_opt o = (enum asm_opt)v;
+  // 8, 9: other calls of the API that are no option setters: debug listing on/off, chunk size on/off, offset
+  if (setter == 8) { if ((unsigned)v % 3 == 0) { asm_set_debug(a, true); asm_set_debug(a, false); } else asm_set_debug(a, false); return; }
+  if (setter == 9) { static const size_t CSZ[] = {16, 0, 4096, 1, 7}; asm_set_chunk_size(a, CSZ[(unsigned)v % 5]); asm_set_chunk_size(a, 0); asm_set_offset(a, (unsigned)v % 50); asm_set_offset(a, 0); return; }
   // 5..7: assemble calls - they are no setters and change no option, whether they succeed or fail
   if (setter >= 5) { const char *src = SRC12[(unsigned)v % 4]; asm_set_offset(a, 0);
     if (setter == 5) assemble_str(a, src); else if (setter == 6) asm_assemble_str(a, src); else { std::string t = src; std::vector<char> w(t.begin(), t.end()); w.push_back(0); int cnt = 0; if (v & 4) assemble_string_counting_chunks(a, w.data(), 16, &cnt); else asm_assemble_string_counting_chunks(a, w.data(), 16, &cnt); }
     asm_set_offset(a, 0); return; }
   switch (setter) { case 0: asm_mov_imm(a, o); break; case 1: asm_sib_index_base_swap(a, o); break; case 2: asm_sib_no_base(a, o); break; case 3: asm_sib(a, o); break; case 4: asm_set_all(a, o); break; }
 }
-static const char *SETTER[] = {"asm_mov_imm", "asm_sib_index_base_swap", "asm_sib_no_base", "asm_sib", "asm_set_all", "assemble_str", "asm_assemble_str", "asm_assemble_string_counting_chunks"};
+static const char *SETTER[] = {"asm_mov_imm", "asm_sib_index_base_swap", "asm_sib_no_base", "asm_sib", "asm_set_all", "assemble_str", "asm_assemble_str", "asm_assemble_string_counting_chunks", "asm_set_debug(off)", "asm_set_chunk_size/asm_set_offset"};
 static std::string valname(int v) { return v == 0 ? "STRICT" : v == 1 ? "NASM" : v == 2 ? "SMART" : v == -2 ? "(two probes of this dimension disagree)" : v == -3 ? "(the probe lines assembled in one call differ from the same lines one by one)" : std::to_string(v); }
 struct Obs { int mov = -1, swap = -1, nobase = -1; std::string err; };
 // observe the effective options of an instance through probe lines (classified with the decoder)
@@ -464,7 +486,7 @@ static Obs observe(assemblyline_t a, uint8_t *buf, bool alias = false) {
 struct SetCmd { int inst, setter, value; };
 static std::string ser12(const std::vector<SetCmd> &h, int ninst) { std::string s = "C12|" + std::to_string(ninst); for (auto &c : h) s += "|" + std::to_string(c.inst) + ":" + std::to_string(c.setter) + ":" + std::to_string(c.value); return s; }
 static bool parse12(const std::string &s, std::vector<SetCmd> &h, int &ninst) { auto f = split(s, '|'); if (f.size() < 2 || f[0] != "C12") return false; ninst = atoi(f[1].c_str()); for (size_t i = 2; i < f.size(); i++) { auto g = split(f[i], ':'); if (g.size() != 3) return false; h.push_back({atoi(g[0].c_str()), atoi(g[1].c_str()), atoi(g[2].c_str())}); } return true; }
-static std::string text12(const std::vector<SetCmd> &h) { std::string s; for (auto &c : h) s += std::string(SETTER[c.setter]) + "(al" + std::to_string(c.inst) + ", " + (c.setter >= 5 ? "\"" + hz::jesc(SRC12[(unsigned)c.value % 4]) + "\"" : valname(c.value)) + "); "; return s; }
+static std::string text12(const std::vector<SetCmd> &h) { std::string s; for (auto &c : h) s += std::string(SETTER[c.setter]) + "(al" + std::to_string(c.inst) + ", " + (c.setter >= 8 ? std::to_string(c.value) : c.setter >= 5 ? "\"" + hz::jesc(SRC12[(unsigned)c.value % 4]) + "\"" : valname(c.value)) + "); "; return s; }
 
 static HV check12(const std::vector<SetCmd> &h, int ninst) {
   HV v; auto bad = [&](const std::string &s, const std::string &d) { v.ok = false; v.symptom = s; v.detail = d; return v; };
@@ -502,14 +524,14 @@ void prop_c12(hz::Ctx &ctx) {
   // from every reachable state (12) every single transition (20)
   for (int mv = 0; mv < 3; mv++) for (int sw = 0; sw < 2; sw++) for (int nb = 0; nb < 2; nb++) for (auto &t : alltr) run({{0, 0, mv}, {0, 1, sw}, {0, 2, nb}, t}, 1, "part:state-x-transition");
   // from every reachable state: an assemble call (deprecated or documented name, succeeding or failing), then nothing / one setter call
-  for (int mv = 0; mv < 3; mv++) for (int sw = 0; sw < 2; sw++) for (int nb = 0; nb < 2; nb++) for (int e = 5; e <= 7; e++) for (int src = 0; src < 8; src++) {
+  for (int mv = 0; mv < 3; mv++) for (int sw = 0; sw < 2; sw++) for (int nb = 0; nb < 2; nb++) for (int e = 5; e <= 9; e++) for (int src = 0; src < 8; src++) {
     if (e != 7 && src >= 4) continue;
     run({{0, 0, mv}, {0, 1, sw}, {0, 2, nb}, {0, e, src}}, 1, "part:state-x-assemble-call");
     run({{0, 4, mv}, {0, 3, sw}, {0, 2, nb}, {0, e, src}, {0, (mv + sw + e) % 5, (nb + src) % 3}}, 1, "part:state-x-assemble-call");
   }
   // random long sequences over 1-3 live instances
   static const int MOREVALS[] = {0, 1, 2, 7, 0, 1, 2, 3, 4, 255, 256, 257, 258, 512, 513, 65536, 65537, -1, -2, 0x7fffffff, (int)0x80000000, 0x100, 0x101};
-  auto gcmd = rc::gen::apply([](int i, int s, int v) { return s >= 5 ? SetCmd{i, 5 + (s - 5) % 3, v % 8} : SetCmd{i, s, MOREVALS[v]}; }, range(0, 3), range(0, 8), range(0, 23));
+  auto gcmd = rc::gen::apply([](int i, int s, int v) { return s >= 5 ? SetCmd{i, 5 + (s - 5) % 5, v % 8} : SetCmd{i, s, MOREVALS[v]}; }, range(0, 3), range(0, 10), range(0, 23));
   auto gen_case = rc::gen::pair(range(1, 4), rc::gen::container<std::vector<SetCmd>>(gcmd));
   rc_rounds(ctx, "C12-sequences", ctx.thorough() ? 1000000 : 150000, 40, [&]() {
     auto pr = *gen_case; int ninst = pr.first; std::vector<SetCmd> h = pr.second; for (auto &c : h) c.inst %= ninst;
